@@ -388,7 +388,8 @@ func (in *Interp) selectOp(fr *frame, instr *ssa.Select) Value {
 	}
 	if len(rs) > 0 {
 		// several ready cases: a decision (Go picks pseudo-randomly)
-		chosen = rs[in.choose("ch", len(rs))]
+		// Go picks pseudo-randomly among ready cases: a scheduler-like decision ("sl")
+		chosen = rs[in.choose("sl", len(rs))]
 	}
 	r := Tuple{in.ts.Const(64, uint64(int64(chosen))), in.ts.Bool(false)}
 	for i, s := range instr.States {
